@@ -76,6 +76,10 @@ def run(sc, workdir):
                     pars[p.name] = rng.choice([0.1, 0.25]) * min(lengths)
                 if p.name == "d_factor":
                     pars[p.name] = rng.choice([0.25, 0.35])
+                # count-like sizes (number of stacked discs ...) take non-integer values, as they do in a fit
+                if p.type == "volume" and p.units == "" and p.name in pars and float(p.default) == int(p.default) >= 1 \
+                        and p.name.startswith(("n_", "n")) and p.limits[0] >= 0:
+                    pars[p.name] = float(p.default) + rng.choice([0.6, 1.6, 0.75])
                 if p.name == "x_core" and rng.random() < 0.6:
                     pars[p.name] = 1.0          # circular cross-section
         pars["scale"], pars["background"] = 1.0, 0.0
